@@ -1,5 +1,6 @@
 """Unit M — C19: MultiRef<T> of helpers_content.rs::multi_ref is transparent (for all T)."""
 from __future__ import annotations
+import re
 from ..core import Unit
 from ..splice import Out
 from .hc import HelpersContent
@@ -12,12 +13,14 @@ class UnitM(Unit):
 
     def build(self, repo, probe=False):
         out = Out()
-        out.spec(HEAD)
-        self._trusted = prelude(out, ['ax-rc', 'ax-parse', 'ax-string-eq', 'ax-tryfrom', 'ax-from-unsigned',
+        hc = HelpersContent(repo)
+        # contracts of std functions the current tree does not call are added only when the extracted text starts calling them
+        on_demand = ['stdspec-arc-count'] if re.search(r'Arc::(strong|weak)_count\s*\(', hc.src) else []
+        out.spec(('#![feature(allocator_api)]\n' if on_demand else '') + HEAD)
+        self._trusted = prelude(out, on_demand + ['ax-rc', 'ax-parse', 'ax-string-eq', 'ax-tryfrom', 'ax-from-unsigned',
                                       'stdspec-parse', 'stdspec-chars', 'stdspec-bytelen', 'ax-bytelen', 'stdspec-contains'],
                                 [('dep_reqwest.rs', ['reqwest-error']),
                                  ('dep_yaserde.rs', ['io-traits', 'io-write-trait-opaque', 'io-traits-end', 'xml', 'yaserde-begin', 'yaserde-traits', 'yaserde-end'])])
-        hc = HelpersContent(repo)
         hc.emit_error(out, False, record=False, imported='R')
         hc.emit_restrictions(out, False, record=False, imported='R')
         hc.emit_multi_ref(out, probe)
